@@ -114,7 +114,12 @@ pub fn apply_real(op: &Op, regs: &mut [Object; REGISTERS], maps: &mut [Option<Co
                 if regs[*r].len() + regs[*s].len() <= MAX_ENTRIES { let src: Vec<Entry> = regs[*s].entries().to_vec(); regs[*r].extend(src); }
                 Res::Unit
             }
-            Op::IterMutSet { r, i, v } => { for (j, (_, slot)) in regs[*r].iter_mut().enumerate() { if j == *i { *slot = v.build(); } } Res::Unit }
+            Op::IterMutSet { r, i, v } => {
+                // through `iter_mut()` or through `IntoIterator for &mut Object`
+                if *i % 2 == 0 { for (j, (_, slot)) in regs[*r].iter_mut().enumerate() { if j == *i { *slot = v.build(); } } }
+                else { for (j, (_, slot)) in (&mut regs[*r]).into_iter().enumerate() { if j == *i { *slot = v.build(); } } }
+                Res::Unit
+            }
             Op::GetMutSet { r, k, pull, v } => {
                 let mut n = 0;
                 let mut it = regs[*r].get_mut(k.as_str());
@@ -438,7 +443,7 @@ pub fn run_c06(sc: &HistSc, st: &mut Stats) -> HistOutcome {
                 return HistOutcome { violation: viol(id, step, op, format!("register {} holds {} but the list model holds {}", q, model::describe_obj(&regs[q]), model::describe(&ms[q]))), outcome: d.finish(), nontrivial };
             }
             let o = &regs[q];
-            if o.len() != ms[q].len() || o.is_empty() != ms[q].is_empty() || o.iter().count() != ms[q].len()
+            if o.len() != ms[q].len() || o.is_empty() != ms[q].is_empty() || o.iter().count() != ms[q].len() || o.into_iter().count() != ms[q].len() || o.capacity() < ms[q].len()
                 || o.first().map(|e| e.key.as_str()) != ms[q].first().map(|e| e.0.as_str()) || o.last().map(|e| e.key.as_str()) != ms[q].last().map(|e| e.0.as_str()) {
                 return HistOutcome { violation: viol("c06.entries", step, op, format!("len/is_empty/iter/first/last of register {} disagree with the list model {}", q, model::describe(&ms[q]))), outcome: d.finish(), nontrivial };
             }
